@@ -2,7 +2,6 @@ package main
 
 import (
 	"fmt"
-	"sort"
 	"strings"
 
 	"golang.org/x/tools/go/ssa"
@@ -10,7 +9,7 @@ import (
 
 func init() {
 	register("C15", "Decides structural necessary conditions of 'configuration validation is total and the instance matches its configuration': "+
-		"(R2) for every rule of the statement there is a rejecting path: under each cause, written as a conjunction of branch-condition values over the configuration fields (log id 0; mirror without public key / with private key; log without private key; unparsable keys; frozen STH without public key, malformed, or not verifying under the configured public key; reject-expired ∧ reject-unexpired; unknown EKU name; invalid start/limit timestamp; limit < start decided on the time.Time values themselves; negative or mis-ordered merge delays on every sample ordering of (max, expected, 0); CTFE storage selected with empty / unparsable / unsupported connection string; empty or duplicate prefix; duplicate tree id; empty or duplicate backend name / spec; undefined backend; duplicate (backend, id)) no success return of the validator is reachable, and moving the decisive atom of the cause to a good value makes success reachable again; every duplicate test records the key it tests in the map it tests, and the composite (backend, id) key is an injective encoding; both file loaders reject input that parses neither as text nor as binary protobuf and return the parsed message; "+
+		"(R2) for every rule of the statement there is a rejecting path: under each cause, written as a conjunction of branch-condition values over the configuration fields (log id 0; mirror without public key / with private key; log without private key; unparsable keys; frozen STH without public key, malformed, or not verifying under the configured public key; reject-expired ∧ reject-unexpired; unknown EKU name; invalid start/limit timestamp; limit < start decided on the time.Time values themselves; negative or mis-ordered merge delays on every sample ordering of (max, expected, 0); CTFE storage selected with empty / unparsable / unsupported connection string; empty or duplicate prefix; duplicate tree id; empty or duplicate backend name / spec; undefined backend; duplicate (backend, id)) no success return of the validator is reachable, and moving the decisive atom of the cause to a good value makes success reachable again; every duplicate test asks a set made in the validator itself, is passed on every turn of the element loop, identifies an element by exactly what the statement says (a single log server: the tree id alone; a multi-backend set: backend name and tree id of the same element; the prefix; the backend name; the backend spec — fields of a struct key count when filled on every path to the test, under the facts that the nil constant is nil and a fresh map is non-nil), records the very key it tests in the very set it tests on every turn and on the not-seen edge only, and a formatted key is an injective encoding; both file loaders reject input that parses neither as text nor as binary protobuf and return the parsed message; "+
 		"(R3) Handlers() removes exactly the add-chain and add-pre-chain entries, exactly when IsReadonly ∨ IsMirror; addChain/addPreChain are bound to a path nowhere else; Instance.Handlers is written only by SetUpInstance from logInfo.Handlers(prefix); "+
 		"(R4) newLogInfo selects FrozenSTHGetter{sth: validated frozen STH} whenever a frozen STH is configured (before the mirror case), MirrorSTHGetter for mirrors, LogSTHGetter otherwise; sthGetter / FrozenSTHGetter.sth / Instance.STHGetter have no other writer; FrozenSTHGetter.GetSTH returns exactly the stored STH; MirrorSTHGetter.GetSTH bounds the storage query by the backend root's tree size and gates both errors; setUpLogInfo rejects a non-mirror without roots and any public key that is of an unknown kind or differs from the signer's; "+
 		"(R5) the validation options and storage parameters of the instance are the validated configuration's fields (field-by-field provenance). "+
@@ -212,32 +211,48 @@ func c15EKUTable(r *Run) {
 // ---- R2: the set-level validators -------------------------------------------------
 
 func c15Sets(r *Run) {
+	// the duplicate clauses are stated on what the test establishes (rules_t5c15.go): which set, which identity
 	if fn := r.Fn(c15cfg + "validateConfigs"); fn != nil {
+		facts := c15Facts(r, fn, "validateConfigs")
+		tests := c15SeenTests(r, fn, facts)
 		r.SgRejectsInLoop(fn, "validateConfigs:invalid-log-config", sgNil("trillian/ctfe.ValidateLogConfig(*)#1", "non"))
 		r.SgRejectsInLoop(fn, "validateConfigs:empty-prefix", c15Empty("*Prefix"))
-		r.SgRejectsInLoop(fn, "validateConfigs:duplicate-prefix", sgBool("make:map[string]bool[*Prefix*]", "T"))
-		key := r.SgDupSet(fn, "validateConfigs:prefix-recorded", "make:map[string]bool[*Prefix*]", "T")
+		t := c15DupClause(r, fn, tests, facts, "validateConfigs:duplicate-prefix", "validateConfigs:prefix-recorded", "*Prefix*")
 		// the element validated is the element whose prefix is tested
-		if c := r.OneCall(fn, "validateConfigs:ValidateLogConfig", c15cfg+"ValidateLogConfig"); c != nil && key != nil {
+		if c := r.OneCall(fn, "validateConfigs:ValidateLogConfig", c15cfg+"ValidateLogConfig"); c != nil && t != nil {
 			el := r.D.D(CallArgs(c)[0])
-			r.Check("validateConfigs:same-element", glob("p0[*]", el) && strings.HasPrefix(r.D.D(key), el), r.Where(c),
-				fmt.Sprintf("ValidateLogConfig(%s); prefix tested: %s", el, r.D.D(key)))
+			r.Check("validateConfigs:same-element", glob("p0[*]", el) && len(t.view.comps) == 1 && strings.HasPrefix(t.view.comps[0], el), r.Where(c),
+				fmt.Sprintf("ValidateLogConfig(%s); prefix tested: %s", el, t.view))
+			c15Injective(r, "validateConfigs:prefix-key-injective", t, "the prefix")
 		}
 	}
 	if fn := r.Fn(c15cfg + "ValidateLogConfigs"); fn != nil {
+		facts := c15Facts(r, fn, "ValidateLogConfigs")
+		tests := c15SeenTests(r, fn, facts)
 		r.SgRejects(fn, "ValidateLogConfigs:invalid-config-set", sgNil("trillian/ctfe.validateConfigs(p0)", "non"))
-		r.SgRejectsInLoop(fn, "ValidateLogConfigs:duplicate-tree-id", sgBool("make:map[int64]bool[*LogId*]", "T"))
-		if key := r.SgDupSet(fn, "ValidateLogConfigs:tree-id-recorded", "make:map[int64]bool[*LogId*]", "T"); key != nil {
-			r.Check("ValidateLogConfigs:tree-id-of-element", anyGlob("p0[*].LogId || *GetLogId(p0[*])", r.D.D(key)), r.FnPos(fn), "duplicate key = "+r.D.D(key))
+		if t := c15DupClause(r, fn, tests, facts, "ValidateLogConfigs:duplicate-tree-id", "ValidateLogConfigs:tree-id-recorded", "*LogId*"); t != nil {
+			// one log server is one backend: a log is identified by its tree id and by nothing else
+			c15Identity(r, "ValidateLogConfigs:tree-id-of-element", r.Where(t.lk), t, "its tree id alone (a single log server is one backend: the set of tree ids must be distinct)",
+				"p0[*].LogId || *GetLogId(p0[*])")
+			c15Injective(r, "ValidateLogConfigs:tree-id-key-injective", t, "the tree id")
 		}
 	}
 	if fn := r.Fn(c15cfg + "BuildLogBackendMap"); fn != nil {
+		facts := c15Facts(r, fn, "BuildLogBackendMap")
+		tests := c15SeenTests(r, fn, facts)
 		r.SgRejectsInLoop(fn, "BuildLogBackendMap:empty-name", c15Empty("*.Name || *GetName(*)"))
 		r.SgRejectsInLoop(fn, "BuildLogBackendMap:empty-spec", c15Empty("*.BackendSpec || *GetBackendSpec(*)"))
-		r.SgRejectsInLoop(fn, "BuildLogBackendMap:duplicate-name", sgBool("make:trillian/ctfe.LogBackendMap[*Name*]#1", "T"))
-		r.SgRejectsInLoop(fn, "BuildLogBackendMap:duplicate-spec", sgBool("make:map[string]bool[*BackendSpec*]", "T"))
-		nk := r.SgDupSet(fn, "BuildLogBackendMap:name-recorded", "make:trillian/ctfe.LogBackendMap[*Name*]#1", "T")
-		r.SgDupSet(fn, "BuildLogBackendMap:spec-recorded", "make:map[string]bool[*BackendSpec*]", "T")
+		nk := c15DupClause(r, fn, tests, facts, "BuildLogBackendMap:duplicate-name", "BuildLogBackendMap:name-recorded", "*.Name || *GetName(*)")
+		sk := c15DupClause(r, fn, tests, facts, "BuildLogBackendMap:duplicate-spec", "BuildLogBackendMap:spec-recorded", "*.BackendSpec || *GetBackendSpec(*)")
+		el := "(*trillian/ctfe/configpb.LogBackendSet).GetBackend(p0)[*] || p0.Backend[*]"
+		if nk != nil {
+			c15Identity(r, "BuildLogBackendMap:name-of-element", r.Where(nk.lk), nk, "its name", c15Fields(el, "Name"))
+			c15Injective(r, "BuildLogBackendMap:name-key-injective", nk, "the backend name")
+		}
+		if sk != nil {
+			c15Identity(r, "BuildLogBackendMap:spec-of-element", r.Where(sk.lk), sk, "its specification", c15Fields(el, "BackendSpec"))
+			c15Injective(r, "BuildLogBackendMap:spec-key-injective", sk, "the backend specification")
+		}
 		// the map returned is the map filled, and each name maps to its own backend
 		for _, ret := range sgOkReturns(fn) {
 			r.Check("BuildLogBackendMap:returns-filled-map", r.D.D(ret.Results[0]) == "make:trillian/ctfe.LogBackendMap", r.Where(ret), "returns "+r.D.D(ret.Results[0]))
@@ -253,10 +268,24 @@ func c15Sets(r *Run) {
 	}
 	if fn := r.Fn(c15cfg + "ValidateLogMultiConfig"); fn != nil {
 		k := "ValidateLogMultiConfig"
+		facts := c15Facts(r, fn, k)
+		tests := c15SeenTests(r, fn, facts)
 		r.SgRejects(fn, k+":invalid-backend-set", sgNil("trillian/ctfe.BuildLogBackendMap(*)#1", "non"))
 		r.SgRejects(fn, k+":invalid-config-set", sgNil("trillian/ctfe.validateConfigs(*)", "non"))
-		r.SgRejectsInLoop(fn, k+":undefined-backend", sgBool("trillian/ctfe.BuildLogBackendMap(*)#0[*LogBackendName*]#1", "F"))
-		r.SgRejectsInLoop(fn, k+":duplicate-backend-tree-id", sgBool("make:map[*]bool[*]", "T"))
+		undef := sgBool("trillian/ctfe.BuildLogBackendMap(*)#0[*LogBackendName*]#1", "F")
+		if r.SgRejectsInLoop(fn, k+":undefined-backend", undef) {
+			// … and no element gets past the loop without being asked (a guard such as `backends != nil &&` in front
+			// of the membership test is decided by the facts)
+			reach := r.D.Walk(fn, facts, nil, nil)
+			for _, b := range r.blocksTesting(fn, func(ci *CondInfo) bool { return anyGlob(undef.Pat, ci.Key) }) {
+				h := c15LoopHead(b)
+				if where := r.Where(b.Instrs[len(b.Instrs)-1]); h != nil && c15OnEveryTurn(reach, h, b) {
+					r.Pass(k+":undefined-backend:every-element", where, fmt.Sprintf("every turn of the element loop passes the backend membership test (facts %s)", facts))
+				} else {
+					r.Fail(k+":undefined-backend:every-element", where, fmt.Sprintf("the backend membership test is not in a loop, cannot execute, or a turn of the element loop can get round it (paths under the facts %s): logs go unasked", facts))
+				}
+			}
+		}
 		if c := r.OneCall(fn, k+":BuildLogBackendMap", c15cfg+"BuildLogBackendMap"); c != nil {
 			r.ExpectArg(c, k+":backends", 0, "p0.Backends || *GetBackends(p0)")
 		}
@@ -266,41 +295,43 @@ func c15Sets(r *Run) {
 		for _, ret := range sgOkReturns(fn) {
 			r.Check(k+":returns-backend-map", glob("trillian/ctfe.BuildLogBackendMap(*)#0", r.D.D(ret.Results[0])), r.Where(ret), "returns "+r.D.D(ret.Results[0]))
 		}
-		if key := r.SgDupSet(fn, k+":backend-tree-id-recorded", "make:map[*]bool[*]", "T"); key != nil {
-			format, ops, ok := sgSprintfParts(r, key)
-			if a := baseAlloc(key); !ok && a != nil {
-				// a comparable struct key built from the element's fields is injective by construction
-				var names []string
-				eachInstr(fn, func(in ssa.Instruction) {
-					if st, isSt := in.(*ssa.Store); isSt {
-						if fa, isFa := st.Addr.(*ssa.FieldAddr); isFa && fa.X == ssa.Value(a) {
-							names = append(names, r.D.D(st.Val))
-						}
-					}
-				})
-				sort.Strings(names)
-				joined := strings.Join(names, " ")
-				r.Check(k+":backend-tree-id-key-operands", len(names) == 2 && anyGlob("*LogBackendName*", joined) && anyGlob("*LogId*", joined), r.FnPos(fn),
-					fmt.Sprintf("duplicate key is a struct built from %v (must be the element's backend name and tree id)", names))
-				r.Pass(k+":backend-tree-id-key-injective", r.FnPos(fn), "a struct key of (backend, tree id) is an injective encoding")
-			} else if !ok {
-				r.Fail(k+":backend-tree-id-key", r.FnPos(fn), "undecided: the duplicate key "+r.D.D(key)+" is not a locally built fmt.Sprintf")
-			} else {
-				var kinds []byte
-				var names []string
-				for _, o := range ops {
-					kinds = append(kinds, sgKindOf(o.Type()))
-					names = append(names, r.D.D(o))
-				}
-				sort.Strings(names)
-				r.Check(k+":backend-tree-id-key-operands", len(names) == 2 && anyGlob("*LogBackendName*", names[0]+names[1]) && anyGlob("*LogId*", names[0]+names[1]), r.FnPos(fn),
-					fmt.Sprintf("duplicate key built from %v (must be the element's backend name and tree id)", names))
-				inj, why := sgFmtInjective(format, kinds)
-				r.Check(k+":backend-tree-id-key-injective", inj, r.FnPos(fn),
-					fmt.Sprintf("duplicate key fmt.Sprintf(%q, …) over operand kinds %q must be an injective encoding of (backend, tree id), otherwise distinct pairs are rejected as duplicates: %s", format, string(kinds), why))
+		if t := c15DupClause(r, fn, tests, facts, k+":duplicate-backend-tree-id", k+":backend-tree-id-recorded", "*LogId*"); t != nil {
+			// several backends: a log is identified by the backend it lives on together with its tree id there
+			el := "p0.LogConfigs.Config[*] || (*trillian/ctfe/configpb.LogConfigSet).GetConfig(*GetLogConfigs(*))[*]"
+			c15Identity(r, k+":backend-tree-id-key-operands", r.Where(t.lk), t, "its backend name together with its tree id (tree ids are unique per backend)",
+				c15Fields(el, "LogBackendName"), c15Fields(el, "LogId"))
+			if len(t.view.comps) == 2 {
+				a, b := c15ElemOf(t.view.comps[0]), c15ElemOf(t.view.comps[1])
+				r.Check(k+":backend-tree-id-key-same-element", a != "" && a == b, r.Where(t.lk), fmt.Sprintf("backend name and tree id of the key are read from the same element (%s / %s)", a, b))
 			}
+			c15Injective(r, k+":backend-tree-id-key-injective", t, "(backend, tree id)")
 		}
 	}
+}
+
+// c15ElemOf: the element a field term is read from ("X.f" or "…Getf(X)"; "" when it is neither).
+func c15ElemOf(term string) string {
+	if strings.HasPrefix(term, "(") && strings.HasSuffix(term, ")") { // (*T).GetF(X)
+		if i := strings.Index(term, ").Get"); i >= 0 {
+			if j := strings.Index(term[i+1:], "("); j >= 0 {
+				return term[i+1+j+1 : len(term)-1]
+			}
+		}
+		return ""
+	}
+	if i := strings.LastIndex(term, "."); i > 0 && !strings.ContainsAny(term[i:], ")]") {
+		return term[:i]
+	}
+	return ""
+}
+
+// c15Fields: globs for field f of an element matching one of the " || " alternatives of el (direct or by getter).
+func c15Fields(el, f string) string {
+	var out []string
+	for _, e := range strings.Split(el, " || ") {
+		out = append(out, e+"."+f, "*Get"+f+"("+e+")")
+	}
+	return strings.Join(out, " || ")
 }
 
 // ---- R2: file loaders ----------------------------------------------------------------
